@@ -114,18 +114,25 @@ class SimConn:
     def _from_exa(self, data: bytes) -> None:
         loop = self.net.loop
         self._seg += 1
-        t = max(loop.mono, self._to_rem_last) + self.net.default_latency(self, ('tx', self._seg))
+        # one-way latency per write, pipelined: order is kept, delays do not add up
+        t = max(loop.mono + self.net.default_latency(self, ('tx', self._seg)), self._to_rem_last)
         self._to_rem_last = t
         when = loop.mono
         if not self.remote_closed:
-            loop.env_at(t, lambda: self.actor.on_bytes(self, data, when))
+            self.net.inflight += 1
+
+            def deliver() -> None:
+                self.net.inflight -= 1
+                self.actor.on_bytes(self, data, when)
+
+            loop.env_at(t, deliver)
 
     def _exa_closed(self) -> None:
         if self.local_closed:
             return
         self.local_closed = True
         loop = self.net.loop
-        t = max(loop.mono, self._to_rem_last) + self.net.default_latency(self, 'lfin')
+        t = max(loop.mono + self.net.default_latency(self, 'lfin'), self._to_rem_last)
         self._to_rem_last = t
         self.net.rec('net-exa-close', cid=self.cid)
         loop.env_at(t, lambda: self.actor.on_close(self))
@@ -353,6 +360,7 @@ class SimNet:
         self.recv_cap_fn: Callable[[SimSocket], int] | None = None
         self.tx_log: list[tuple] = []  # (cid, mono, bytes)
         self.tx_hook = None
+        self.inflight = 0  # writes of exabgp not yet delivered to the remote actor
 
     # ---- knobs ----------------------------------------------------------
 
